@@ -13,6 +13,7 @@ INVARIANT InvDefAlg
 INVARIANT InvSkeleton
 INVARIANT InvCone
 INVARIANT InvIsolated
+INVARIANT InvSingleLinkage
 INVARIANT InvDefinitional
 INVARIANT EmitCase
 CHECK_DEADLOCK FALSE
